@@ -175,6 +175,35 @@ def outside_pickler_model_shared(o, p):
     return outside_pickler_model(o, p)
 
 
+def interned_char_clash(o, p):
+    """CPython keeps ONE object per one-character Latin-1 string.  Below protocol 3 a bytes / bytearray object of one byte is written
+    through a temporary str(obj, 'latin1') - that very object - so the pickler finds it in its memo when the same character occurred
+    before as a str or as the content of another one-byte object.  The model knows objects by the ids the case text gives them and
+    cannot see this temporary; such objects are left out of the byte-for-byte comparison (they are still decoded and compared)."""
+    if p >= 3:
+        return False
+    chars, ids = {}, set()
+
+    def walk(x):
+        if isinstance(x, str) and len(x) == 1 and ord(x) < 256:
+            if ("s", x) not in ids:
+                ids.add(("s", x))
+                chars[ord(x)] = chars.get(ord(x), 0) + 1
+        elif isinstance(x, (bytes, bytearray)) and len(x) == 1:
+            if id(x) not in ids:
+                ids.add(id(x))
+                chars[x[0]] = chars.get(x[0], 0) + 1
+        elif isinstance(x, (list, tuple)):
+            for y in x:
+                walk(y)
+        elif isinstance(x, dict):
+            for k, v in x.items():
+                walk(k)
+                walk(v)
+    walk(o)
+    return any(n >= 2 for n in chars.values())
+
+
 def shared_objects(rng, n):
     objs = pyside.rand_objects(rng, n, share=0.3)
     k, d = "key" + str(rng.randint(0, 9)), b"payload\xff"
@@ -183,8 +212,9 @@ def shared_objects(rng, n):
              [{k: d, "n": i} for i in range(300)], [b"x" * 300, b"x" * 300], [bytearray(b"q" * 70000)], [b"\xff" * 256],
              ["x" * 300] * 3 + [b"y" * 3] * 3, {i: k for i in range(1001)}, [d] * 1001, (d, (d, [d, {d: d}])),
              [bytes([i]) for i in range(256)], [bytearray([i, 255 - i]) for i in range(40)], b"", bytearray(), [b"", bytearray()]]
-    # objects fetched again long after they were memoized: memo indices of two and three bytes (LONG_BINGET / LONG_BINPUT)
-    for m in ((300, 700) if n < 1000 else (300, 700, 66000)):
+    # objects fetched again long after they were memoized: memo indices beyond one byte (LONG_BINGET / LONG_BINPUT); the driver is
+    # quadratic in the number of memoized objects, so a few thousand is the limit for a run measured in minutes
+    for m in ((300, 700) if n < 1000 else (300, 700, 3000)):
         late = ["s%d" % i for i in range(m)]
         objs.append(late + [late[m - 1], late[0], late[256], late[255], late[m // 2]])
     lb = [bytes([i % 256, i // 256]) + b"x" for i in range(400)]
@@ -300,6 +330,10 @@ def pickler_tie(ctx, objs, shared=False):
             ctx.disagree(line[:3000], "pickle.dumps: " + hexs(want[:400]), a[:300], "pickler model")
             continue
         hx, flags = a[3:].split(" ")
+        if shared and bytes.fromhex(hx) != want and interned_char_clash(o, p):
+            ctx.count(tag + ":declared-unmodelled(one-character str object shared with a one-byte bytes object's temporary)")
+            ctx.unmodelled += 1
+            continue
         if bytes.fromhex(hx) != want:
             ctx.disagree(line[:3000], "pickle.dumps: " + hexs(want[:1000]), "model: " + hx[:2000], "pickler model")
             continue
@@ -426,6 +460,11 @@ class C02:
         objs += [{float("nan"): 1, float("nan"): 2}, {(float("nan"), "a"): 1, (float("nan"), "a"): 2, 1.5: 3}, [float("nan"), float("nan")]]   # distinct NaN objects: distinct keys
         objs += [2 ** 1016, -2 ** 1016, 2 ** 2038, b"", bytearray(), [b"", bytearray(b"")], {(): 1}, {(1, (2, "a")): [1]},
                  "\ud800", ["a\udfffb"], {1: {2: {3: []}}}, [[]] * 2]
+        # payloads between one reader buffer (4 KiB) and the 64 KiB pre-allocation cap, alone and many in a row (each starts at another
+        # offset of the reader's window), of every counted kind
+        objs += [b"f" * 4096, bytes(range(256)) * 17, bytearray(bytes(range(255, -1, -1)) * 20), "g" * 5000, "\u00e9" * 3000,
+                 [bytes([65 + i]) * 300 for i in range(20)], [bytearray([97 + i]) * 700 for i in range(12)], ["h%d" % i * 150 for i in range(30)],
+                 {"k": b"N." * 3000, b"i" * 1000: ("j" * 4095, b"k" * 4097)}, [bytes(range(256)) * 120, b"l" * 60000, "m" * 40000]]
         late = ["s%d" % i for i in range(300)]
         objs.append(late + [late[299], late[0], late[256]])          # a GET with a two-byte memo index
         x = [1, 2]
@@ -589,7 +628,7 @@ def sharing_programs():
 class C06:
     prop = "C06"
     lean_module = "Ogorek.Props.C06Pk"
-    theorems = ["Ogorek.C06_pickler_agree", "Ogorek.C06_pickler_pvm", "Ogorek.C02_pickler_shared", "Ogorek.psk_val", "Ogorek.sk_val",
+    theorems = ["Ogorek.C06_pickler_agree", "Ogorek.C06_pickler_agree_bin", "Ogorek.pyOKp_of_b", "Ogorek.C06_pickler_pvm", "Ogorek.C02_pickler_shared", "Ogorek.psk_val", "Ogorek.sk_val",
                 "Ogorek.pruns_listGroups", "Ogorek.pruns_dictGroups", "Ogorek.PMemoInv.put", "Ogorek.pruns_get", "Ogorek.pyAssignAll_repG",
                 "Ogorek.C01_C03_agree", "Ogorek.C02_memo_keys", "Ogorek.C06_dup_same", "Ogorek.C06_get_same", "Ogorek.C06_dict_shared",
                 "Ogorek.C06_K1_witness", "Ogorek.C06_ref_appends_shared"]
@@ -614,7 +653,8 @@ class C06:
                   "exempt from locality because a fetched one may be older than its container, and the memo invariant PMemoInv with "
                   "PMemoInv.put / pruns_get. Hypotheses: what each side demands of dict keys (og-rek: acceptable to the table and "
                   "pairwise different for it; CPython: hashable, at most one NaN-holding key), valid UTF-8 text, at protocol 0 the "
-                  "float-text hypothesis. PARTIAL: no simulation theorem between the two machines on "
+                  "float-text hypothesis; for protocols 1-5 all of these are decided by evaluation (C06_pickler_agree_bin with pkOKb / pyOKb, which the "
+                  "check computes for every real pickle it takes as a program). PARTIAL: no simulation theorem between the two machines on "
                   "arbitrary programs (K1 and K6 make them differ where lists / NaN objects are shared); there the statement is decided "
                   "per run against the real CPython unpickler on generated and exhaustively enumerated programs (K1 runs being exactly "
                   "those on which the value- and reference-list machines of the model differ), and the Lean model of CPython's "
@@ -652,12 +692,20 @@ class C06:
         progs += P.batch_programs()
         # what CPython's pickler writes for objects with tree-shaped containers (the programs of theorem C06_pickler_agree)
         import pickle
+        pk_objs = []
         for o in shared_objects(rng, ctx.scale(40, 600)) + tree_objects(rng, ctx.scale(20, 300)):
             if containers_are_tree(o, set()) and len(repr(o)) < 30000:
                 for pr in (range(6) if ctx.thorough else rng.sample(range(6), 2)):
                     d = pickle.dumps(o, pr)
                     if len(d) < 40000:
                         progs.append(d)
+                        pk_objs.append((o, pr, d))
+        # what Python 2.7's two picklers write (protocols 0-2: STRING / BINSTRING for str, LONG / LONG1, memo fetches for repeated
+        # constants, bytearray(text, 'latin-1')), where a python2 is installed; CPython 3 loads them and is the oracle as for any program
+        p2 = pyside.py2_pickles(rng, ctx.scale(80, 1500))
+        ctx.count("python2-pickles:" + ("python2-absent" if p2 is None else "used"), 1 if p2 is None else len(p2))
+        progs += [d for d in (p2 or []) if len(d) < 40000]
+        progs += [P.py2_bytearray_pickle(b, pr, c) for b in (b"", b"a", b"h\xe9llo\xff", b"x" * 300) for pr in (0, 1, 2) for c in (False, True)]
         nan = b"G\x7f\xf8\x00\x00\x00\x00\x00\x00"     # one NaN object used as a key twice (K6), and two NaN objects (no finding)
         progs += [b"}" + nan + b"q\x00K\x01sh\x00K\x02s.", b"(" + nan + b"q\x00K\x01h\x00K\x02d.", b"}" + nan + b"2K\x01sK\x02s.",
                   b"}" + nan + b"q\x00\x85K\x01sh\x00\x85K\x02s.", b"}" + nan + b"K\x01s" + nan + b"K\x02s."]
@@ -668,6 +716,20 @@ class C06:
         progs = list(dict.fromkeys(progs))
         py = C.run_sharded(C.run_py, [f"load {hexs(p)}" for p in progs])
         pvm_tie(ctx, progs, py)
+        # which of the real pickles are instances of theorem C06_pickler_agree_bin: the model of the pickler writes exactly these bytes
+        # and the decidable hypotheses (keys acceptable to both sides, valid UTF-8 text) hold - flags computed by the Lean driver
+        pka = C.run_sharded(C.run_lean, [f"cpks {'1' if pr >= 4 else '0'} {pr} {py_token_ids(o, {})}" for o, pr, d in pk_objs])
+        for (o, pr, d), a in zip(pk_objs, pka):
+            if a.startswith("OK ") and bytes.fromhex(a[3:].split(" ")[0]) == d:
+                fl = a[3:].split(" ")[1]
+                ctx.count("pickler-agree-theorem:" + ("instance(PyDict mode)" if fl[1] == "1" and fl[2:3] == "1" and (pr >= 1 or not _has_float(o))
+                                                      else "outside-hypotheses"))
+            else:
+                ctx.count("pickler-agree-theorem:bytes-not-the-model's(" + ("multi-frame" if pr >= 4 and len(d) > 60000 else
+                                                                              "interned one-character str" if interned_char_clash(o, pr) else
+                                                                              "?" + a[:12]) + ")")
+                if not (pr >= 4 and len(d) > 60000) and not interned_char_clash(o, pr) and not outside_pickler_model_shared(o, pr):
+                    ctx.disagree(f"cpks {pr} {py_token_ids(o, {})[:3000]}", "pickle.dumps: " + hexs(d[:1000]), a[:2000], "pickler model")
         lines, meta = [], []
         for p, o in zip(progs, py):
             ctx.count("cpython:" + o.split(" ")[0])
